@@ -102,11 +102,11 @@ func pickFaceSpecs(r *kernel.Rand) []FaceSpec {
 	nFonts := r.Range(1, 4)
 	for i := 0; i < nFonts; i++ {
 		var file string
-		switch r.Weighted([]int{5, 3, 2, 2, 1}) {
+		switch r.Weighted([]int{5, 3, 2, 2, 2}) {
 		case 4:
 			// AAT fonts: morx (one of them with a 'feat' table mapping OpenType tags), trak, feat
 			// (not the insertion-heavy morx test fonts: shaping 200 runes with them takes a minute)
-			file = kernel.Pick(r, []string{"ot:collections/Courier.dfont", "hb:fonts/aat-morx.ttf", "ot:toys/Trak.ttf", "ot:toys/Feat.ttf"})
+			file = kernel.Pick(r, []string{"ot:collections/Courier.dfont", "ot:collections/Courier.dfont", "ot:collections/Courier.dfont", "hb:fonts/aat-morx.ttf", "ot:toys/Trak.ttf", "ot:toys/Feat.ttf"})
 		case 0:
 			file = kernel.Pick(r, corpus.Variable)
 		case 1:
